@@ -5,7 +5,7 @@ CONSTANTS
   Powers <- P_pm2
   MaxFactors = 1
   Mags <- M_one
-  TargetNames <- N_mid
+  TargetNames <- N_small
   TargetPowers <- P_pm2
   MaxTFactors = 2
   ScaleKs <- K_one
